@@ -34,7 +34,9 @@ def part(tier, seed, which=('map', 'sched'), pid='C08'):
                     '(every operand region still holds the value of its producer when read; captured and input slots intact; aliases exact; capacities; c_len), SchedValid '
                     '(level bounds, operands from earlier levels, per-level write/write and write/read disjointness); distinct = (circuit, options, capacities)',
                     f'exhaustive-small family + {120 if tier == "quick" else 2500} seeded circuits x 4 option sets')
-    for c, sig in logic_drv.circuit_cases(tier, seed):
+    import itertools
+    wide = [(G.wide_circuit(150, 2), ('wide', 150, 2)), (G.wide_circuit(40, 4), ('wide', 40, 4))]
+    for c, sig in itertools.chain(wide, logic_drv.circuit_cases(tier, seed)):
         desc = G.describe(c)
         rng = random.Random(hash(str(sig)) & 0xfffff)
         capsets = [(1, 1), (8, 4)]
